@@ -17,6 +17,7 @@ client is silent: the interrupted operation must leave no trace.
 """
 
 import asyncio
+import enum
 import itertools
 import json
 import logging
@@ -73,6 +74,9 @@ class Ctx:
         self.params = None
         self.res_mw_args = None
         self.ops = {}
+        self.route = case['route']  # effective route: process_request_ws may re-route by assigning req.path
+        self.rewrites = 0
+        self.typed = 0              # typed arguments (str subclasses, IntEnum members) handed to the real code
         self.oplog = []             # (site, op name, result, [attempt outcomes])
         self.diverged_at = None
 
@@ -80,11 +84,49 @@ class Ctx:
 CTX = Ctx()
 
 
+class Masked(str):
+    """A str whose display forms differ from its text (display-masking types, e.g. secrets)."""
+
+    def __str__(self):
+        return '<redacted>'
+
+    __repr__ = __str__
+
+    def __format__(self, spec):
+        return '<redacted>'
+
+
+def mat(x):
+    """JSON form of a typed argument -> the object.
+
+    {'strsub': 'enum'|'masked', 'value': s}: a str subclass instance whose text is s but whose str()/repr()/
+    format() differ (member of a (str, Enum) class / masking type); {'intenum': n}: an IntEnum member equal to n."""
+    if isinstance(x, dict):
+        if 'strsub' in x:
+            if x['strsub'] == 'enum':
+                return enum.Enum('Keyword', {'MEMBER': x['value']}, type=str).MEMBER
+            return Masked(x['value'])
+        if 'intenum' in x:
+            return enum.IntEnum('AppCode', {'MEMBER': x['intenum']}).MEMBER
+    return x
+
+
+def is_typed(x):
+    return isinstance(x, dict) and ('strsub' in x or 'intenum' in x)
+
+
 def prep(step):
-    """JSON step -> executable step (adds '_v', '_hdrs')."""
+    """JSON step -> executable step (adds '_v', '_hdrs'; typed arguments are materialised in the copy)."""
     s = dict(step)
+    for k in ('sub', 'code', 'reason'):
+        if is_typed(s.get(k)):
+            s[k] = mat(s[k])
+            CTX.typed += 1
     v = s.get('v')
-    if isinstance(v, dict) and 'hex' in v:
+    if is_typed(v):
+        s['_v'] = mat(v)
+        CTX.typed += 1
+    elif isinstance(v, dict) and 'hex' in v:
         raw = bytes.fromhex(v['hex'])
         kind = v.get('as', 'bytes')
         s['_v'] = bytearray(raw) if kind == 'bytearray' else memoryview(raw) if kind == 'memoryview' else raw
@@ -92,7 +134,8 @@ def prep(step):
         s['_v'] = v
     h = s.get('hdrs')
     if isinstance(h, list):
-        s['_hdrs'] = [tuple(p) for p in h]
+        s['_hdrs'] = [tuple(mat(e) for e in p) for p in h]
+        s['hdrs'] = s['_hdrs']
     else:
         s['_hdrs'] = h
     return s
@@ -153,7 +196,7 @@ async def do_op(ws, s):
     raise AssertionError(n)
 
 
-async def run_site(site, ws, steps):
+async def run_site(site, ws, steps, req=None):
     c = CTX
     c.sites.append(site)
     drv, model = c.drv, c.model
@@ -166,6 +209,14 @@ async def run_site(site, ws, steps):
                 break
             if n == 'yield':
                 await asyncio.sleep(0)
+                continue
+            if n == 'set_path':
+                # documented re-routing: "a request can be effectively re-routed by setting that attribute
+                # to a new value from within process_request_ws()"
+                req.path = PATHS[step['to']]
+                if site == 'mw_req':
+                    c.route = step['to']
+                    c.rewrites += 1
                 continue
             s = prep(step)
             facts = drv.snapshot()
@@ -197,12 +248,12 @@ async def run_site(site, ws, steps):
 class Middleware:
     async def process_request_ws(self, req, ws):
         CTX.ws_objs.append(ws)
-        await run_site('mw_req', ws, CTX.case['mw']['req'])
+        await run_site('mw_req', ws, CTX.case['mw']['req'], req)
 
     async def process_resource_ws(self, req, ws, resource, params):
         CTX.ws_objs.append(ws)
         CTX.res_mw_args = (resource, dict(params))
-        await run_site('mw_res', ws, CTX.case['mw']['res'])
+        await run_site('mw_res', ws, CTX.case['mw']['res'], req)
 
 
 class WsResource:
@@ -212,7 +263,8 @@ class WsResource:
     async def on_websocket(self, req, ws, **params):
         CTX.ws_objs.append(ws)
         CTX.params = params
-        await run_site('responder', ws, CTX.case['steps'])
+        CTX.responder_of = self
+        await run_site('responder', ws, CTX.case['steps'], req)
 
 
 class HttpOnlyResource:
@@ -312,7 +364,8 @@ def execute(case):
     app, reasons = get_app(case['mw'] is not None, handler['sig'] if handler else None)
     opts = app.ws_options
     opts.max_receive_queue = case['queue']
-    opts.error_close_code = case['err_code']
+    err_code = mat(case['err_code'])
+    opts.error_close_code = err_code
     if case['reasons'] == 'custom':
         reasons = dict(reasons)
         reasons.pop(1000, None)
@@ -339,6 +392,7 @@ def execute(case):
     drv.run(app, scope)
     o = Outcome()
     o.case, o.drv, o.model = case, drv, model
+    o.err_code = err_code
     o.problems = []          # (kind, detail)
     o.diag = []
     o.terminal = None
@@ -346,15 +400,15 @@ def execute(case):
     return o
 
 
-def expected_sites(case):
+def expected_sites(case, route):
     """Which user-code sites must run, in order, until one of them raises (docs: middleware order,
     process_resource_ws only for routed resources)."""
     sites = []
     if case['mw'] is not None:
         sites.append('mw_req')
-    if case['route'] in ('ok', 'param', 'nows') and case['mw'] is not None:
+    if route in ('ok', 'param', 'nows') and case['mw'] is not None:
         sites.append('mw_res')
-    if case['route'] in ('ok', 'param'):
+    if route in ('ok', 'param'):
         sites.append('responder')
     return sites
 
@@ -408,7 +462,8 @@ def _judge_end(o, P):
         return
 
     # ---- which user code ran, and how it ended
-    want_sites = expected_sites(case)
+    route = c.route               # the path as the request middleware left it decides the route
+    want_sites = expected_sites(case, route)
     ran = [s for s in c.sites if s != 'handler']
     ended_ex = None
     seq = []
@@ -422,9 +477,9 @@ def _judge_end(o, P):
         P.append(('trace-mismatch', {'want': seq, 'ran': c.sites}))
         return
     if ended_ex is None:
-        if case['route'] == 'unrouted':
+        if route == 'unrouted':
             terminal = ('http', 404)
-        elif case['route'] == 'nows':
+        elif route == 'nows':
             terminal = ('http', 405)
         else:
             terminal = ('return',)
@@ -432,10 +487,15 @@ def _judge_end(o, P):
         terminal = classify_exc(ended_ex)
 
     # ---- routing / params / ws identity
-    if 'responder' in ran and case['route'] == 'param' and c.params != {'name': 'lobby'}:
+    if 'responder' in ran and route == 'param' and c.params != {'name': 'lobby'}:
         P.append(('params-mismatch', {'got': c.params}))
-    if 'responder' in ran and case['route'] == 'ok' and c.params != {}:
+    if 'responder' in ran and route == 'ok' and c.params != {}:
         P.append(('params-mismatch', {'got': c.params}))
+    if 'mw_res' in ran:
+        resource, params = c.res_mw_args
+        want_res = NOWS_RES if route == 'nows' else WS_RES
+        if resource is not want_res or params != ({'name': 'lobby'} if route == 'param' else {}):
+            P.append(('resource-middleware-args', {'route': route, 'resource': repr(resource), 'params': params}))
     if len({id(w) for w in c.ws_objs}) > 1:
         P.append(('different-ws-objects', {}))
 
@@ -473,7 +533,7 @@ def _judge_end(o, P):
         if terminal[0] == 'handled':
             codes = []
         else:
-            codes = M.expected_final_code(terminal, case['err_code'], set(case['reject']))
+            codes = M.expected_final_code(terminal, o.err_code, set(case['reject']))
         got_codes = [a[1].get('code', 1000) if isinstance(a[1], dict) else None for a in fw]
         injected = any(a[2] != 'sent' and a[2] != 'raised:invalid_close_code' for a in fw)
         if terminal[0] == 'handled':
@@ -597,6 +657,14 @@ def run_case(rec, case, tag):
             rec.count('fault.%s.%s' % (a[2].split(':')[1], (a[1].get('type') or '?').split('.')[-1]))
     if drv.disconnect_handed:
         rec.count('server.disconnect-handed')
+    if c.typed:
+        rec.count('args.typed', c.typed)
+    if is_typed(norm_case(case)['err_code']):
+        rec.count('args.typed')
+        rec.count('args.typed-error-close-code')
+    if c.rewrites:
+        rec.count('route.rewritten')
+        rec.count('route.rewritten-to.' + c.route)
     if drv.pauses_released:
         rec.count('server.pauses-released', drv.pauses_released)
     if drv.rx_parked:
@@ -787,6 +855,82 @@ def block_d(rec):
     return idx
 
 
+def SS(kind, value):
+    return {'strsub': kind, 'value': value}
+
+
+def IE(n):
+    return {'intenum': n}
+
+
+def block_e(rec):
+    """Bounded-exhaustive: (a) documented argument types other than the exact built-ins - every str argument
+    of the WebSocket API as a str subclass whose str()/repr()/format() differ from its text, every int
+    argument (close codes, ws_options.error_close_code) as an IntEnum member; (b) process_request_ws
+    re-routing the handshake by assigning req.path."""
+    idx = 0
+    cfgs = [{'spec': sp, 'queue': q} for sp in ('2.0', '2.3', '2.4') for q in (0, 2)]
+
+    def go(case, tag):
+        nonlocal idx
+        idx += 1
+        if idx % rec.nshards == rec.shard:
+            run_case(rec, case, tag)
+
+    texts = ['pong', '', 'é€ "x"']
+    for cfg in cfgs:
+        for kind in ('enum', 'masked'):
+            for t in texts:
+                # send_text payload / close reason / subprotocol / accept header names and values
+                go(dict(cfg, steps=[{'op': 'accept'}, {'op': 'send_text', 'v': SS(kind, t)},
+                                    {'op': 'send_text', 'v': t}]), 'types')
+                go(dict(cfg, steps=[{'op': 'send_text', 'v': SS(kind, t)}]), 'types')
+                go(dict(cfg, steps=[{'op': 'accept'}, {'op': 'close', 'code': 4001, 'reason': SS(kind, t)}]), 'types')
+                go(dict(cfg, steps=[{'op': 'close', 'reason': SS(kind, t)}]), 'types')
+            for sub in ('wamp', 'zzz'):
+                for strict in (False, True):
+                    go(dict(cfg, offered=['wamp', 'graphql-ws'], strict=strict,
+                            steps=[{'op': 'accept', 'sub': SS(kind, sub)}, {'op': 'send_text', 'v': 'x'}]), 'types')
+            go(dict(cfg, steps=[{'op': 'accept', 'hdrs': [[SS(kind, 'X-Kw'), SS(kind, 'v1')], ['x-b', SS(kind, '')]]},
+                                {'op': 'send_data', 'v': {'hex': '00'}}]), 'types')
+            go(dict(cfg, steps=[{'op': 'accept', 'hdrs': [[SS(kind, 'Sec-WebSocket-Protocol'), 'wamp']]}]), 'types')
+        for code in (1000, 1001, 3000, 4008, 4999, 1005, 1015, 999, 0):
+            for pre in ([], [{'op': 'accept'}]):
+                for reason in (None, 'why'):
+                    st = {'op': 'close', 'code': IE(code)}
+                    if reason:
+                        st['reason'] = reason
+                    go(dict(cfg, steps=pre + [st, {'op': 'send_text', 'v': 'after'}]), 'types')
+            go(dict(cfg, mw={'req': [{'op': 'close', 'code': IE(code)}], 'res': []}, steps=[{'op': 'accept'}]), 'types')
+            go(dict(cfg, steps=[{'op': 'accept'}, {'op': 'raise', 'exc': 'custom'}],
+                    handler={'sig': 'ws', 'steps': [{'op': 'close', 'code': IE(code)}]}), 'types')
+        for ec in ({'err_code': IE(1011)}, {'err_code': IE(4008)}, {'err_code': IE(3011)}, {'err_code': IE(1005)},
+                   {'err_code': IE(999)}, {'err_code': IE(4008), 'reject': [4008]},
+                   {'err_code': IE(1011), 'reject': [1011]}):
+            for steps in ([{'op': 'raise', 'exc': 'value'}], [{'op': 'accept'}, {'op': 'raise', 'exc': 'type'}],
+                          [{'op': 'accept'}, {'op': 'receive_text', 'prop': True}], [{'op': 'accept'}],
+                          [{'op': 'raise', 'exc': 'http_error', 'status': 403}]):
+                go(dict(cfg, steps=steps, client=[{'t': 'bytes', 'hex': '00'}], **ec), 'types')
+            go(dict(cfg, steps=[{'op': 'accept'}, {'op': 'raise', 'exc': 'custom'}],
+                    handler={'sig': 'nows', 'steps': []}, **ec), 'types')
+    # (b) re-routing
+    routes = ('ok', 'param', 'unrouted', 'nows')
+    for orig in routes:
+        for to in routes:
+            for req_script in ([{'op': 'set_path', 'to': to}],
+                               [{'op': 'set_path', 'to': to}, {'op': 'accept'}],
+                               [{'op': 'accept'}, {'op': 'set_path', 'to': to}],
+                               [{'op': 'set_path', 'to': to}, {'op': 'set_path', 'to': orig}],
+                               [{'op': 'set_path', 'to': orig}, {'op': 'set_path', 'to': to}],
+                               [{'op': 'set_path', 'to': to}, {'op': 'raise', 'exc': 'http_error', 'status': 401}]):
+                for res_script in ([], [{'op': 'accept'}], [{'op': 'set_path', 'to': 'unrouted'}]):
+                    for steps in RESP_SCRIPTS[:5]:
+                        for spec, queue in (('2.0', 0), ('2.4', 2)):
+                            go({'route': orig, 'mw': {'req': req_script, 'res': res_script}, 'steps': steps,
+                                'spec': spec, 'queue': queue, 'client': [T1]}, 'reroute')
+    return idx
+
+
 MW_SCRIPTS = [
     [],
     [{'op': 'accept'}],
@@ -973,6 +1117,18 @@ def rnd_step(rng, allow_raise=True):
             s['code'] = rng.choice([None, 1001, 4000])
     if s['op'] not in ('yield', 'raise') and rng.random() < 0.12:
         s['prop'] = True
+    # documented argument types other than the exact built-ins
+    if rng.random() < 0.15:
+        kind = rng.choice(['enum', 'masked'])
+        if s['op'] == 'send_text' and isinstance(s['v'], str):
+            s['v'] = SS(kind, s['v'])
+        elif s['op'] == 'accept' and isinstance(s.get('sub'), str):
+            s['sub'] = SS(kind, s['sub'])
+        elif s['op'] == 'close':
+            if isinstance(s.get('reason'), str) and rng.random() < 0.5:
+                s['reason'] = SS(kind, s['reason'])
+            elif isinstance(s.get('code'), int):
+                s['code'] = IE(s['code'])
     return s
 
 
@@ -1043,6 +1199,11 @@ def rnd_case(rng):
             case['steps'] = case['steps'] + [{'op': 'raise', 'exc': 'custom'}]
     if rng.random() < 0.3:
         case.update(rng.choice(ERR_CODES))
+        if rng.random() < 0.3:
+            case['err_code'] = IE(case['err_code'])
+    if case.get('mw') and rng.random() < 0.4:
+        pos = rng.randint(0, len(case['mw']['req']))
+        case['mw']['req'] = case['mw']['req'][:pos] + [{'op': 'set_path', 'to': rng.choice(list(PATHS))}] + case['mw']['req'][pos:]
     if rng.random() < 0.2:
         case['offered'] = ['wamp', 'graphql-ws']
         case['strict'] = rng.random() < 0.5
@@ -1088,12 +1249,16 @@ def run(rec):
     na = block_a(rec)
     nb = block_b(rec)
     nd = block_d(rec)
+    ne = block_e(rec)
     rec.exhaustive = True
     if rec.shard == 0:
         rec.note('exhaustive: %d (script<=%d x client) pairs over %d ops, each under >=2 server configurations; '
                  '%d framework-path combinations; fault indices of every such run on spec 2.4; '
                  '%d cancelled-receive histories (accept; [op]; timed receive; any op; follow-up) x client pauses'
                  % (na, 2 if rec.tier == 'quick' else 3, len(OPS_A), nb, nd))
+        rec.note('exhaustive: %d cases over argument types (str subclasses with differing display forms for payload/'
+                 'reason/subprotocol/header names and values, IntEnum close codes and error_close_code) and '
+                 'process_request_ws re-routing (4 routes x 4 targets x 6 rewrite scripts)' % ne)
     block_random(rec)
     D.aio.shared().close()
 
@@ -1116,6 +1281,12 @@ def run(rec):
               'receive_media.after-cancelled-receive', 'receive_text.waited-through-pause'):
         rec.floor('branch.' + b, 20)
     rec.floor('phase.exhaustive-cancel', 1000)
+    rec.floor('phase.types', 500)
+    rec.floor('phase.reroute', 1000)
+    rec.floor('args.typed', 1000)
+    rec.floor('route.rewritten', 1000)
+    for r in ('ok', 'param', 'unrouted', 'nows'):
+        rec.floor('route.rewritten-to.' + r, 50)
     rec.floor('server.pauses-released', 100)
     for t in ('return', 'http', 'unexpected', 'handled', 'blocked', 'abandoned', 'http.404', 'http.405'):
         rec.floor('terminal.' + t, 5)
